@@ -52,6 +52,7 @@ def parseSysOp (o : OState) : List String → Option Sys.Op
   | "invoke" :: c :: size :: _ :: rest => do
     some (.invoke (← c.toNat?) (← size.toNat?) ((skv rest "h").getD ""))
   | "beh" :: base :: rest => some (.beh base ((skv rest "term").getD "ignore"))
+  | ["execfail", base, onoff] => some (.execFail base (onoff == "on"))
   | k :: name :: "register" :: evs :: rest =>
     if k == "ext" || k == "int" then
       let v := if rest.contains "noname" then "noname" else if rest.contains "badjson" then "badjson"
